@@ -43,6 +43,8 @@ def gen(rng, tier, k):
         ab["osu_meter"] = rng.choice([3, 5, 7])  # the time signature of an osu timing point does not move anything in time
     if sg in ("osu", "qua") and len(ab["tempo"]) > 1 and rng.random() < 0.4:
         ab["tempo_rows_reversed"] = True  # tempo entries listed out of time order in the source file
+    if sg == "o2j" and rng.random() < 0.35:
+        ab["ojn_event_at_zero"] = rng.choice([v for v in (111.0, 90.0, 240.0) if v != ab["tempo"][0][1]])  # the header tempo, overridden at 0 ms by an event
     if sg == "sm" and rng.random() < 0.4:
         # a .sm file carries several charts, each with its own chart type (key count); tempo and offset belong to the file
         ab["extra"] = []
